@@ -201,14 +201,18 @@ structure SimRun (k0 : Nat) (rk ru : FileRun) : Prop where
   /-- the outcome is the unlimited run's, or an `Io` failure -/
   outcome : rk.outcome = ru.outcome ∨ ∃ l, rk.outcome = .failure "Io" "" l
 
-theorem execFrom_cons (env : Env) (fin : Option Outcome) (st : PState) (b : List Stmt) (bs : List (List Stmt)) :
-    execFrom env fin st (b :: bs) =
-      match addStmts env st b with
-      | .ok st' => execFrom env fin st' bs
+/-- a run, one statement at a time: a failing statement ends the run in the state it was executed in -/
+theorem execFrom_stmt_cons (env : Env) (fin : Option Outcome) (st : PState) (s : Stmt) (ss : List Stmt) :
+    execFrom env fin st [s :: ss] =
+      match addStmt env st s with
+      | .ok st' => execFrom env fin st' [ss]
       | .err e loc => finish st (.failure e.cls (errDetail e) loc)
-      | .panic s => finish st (.panic s) := by
-  simp only [execFrom, runBatches]
-  cases addStmts env st b <;> rfl
+      | .panic x => finish st (.panic x) := by
+  simp only [execFrom, runBatches, addStmtsKeep]
+  cases addStmt env st s <;> rfl
+
+theorem execFrom_stmt_nil (env : Env) (fin : Option Outcome) (st : PState) :
+    execFrom env fin st [[]] = execFrom env fin st [] := rfl
 
 theorem recsBytes_prefix {a b : List (Nat × Bytes)} (h : a <+: b) : recsBytes a <+: recsBytes b := by
   obtain ⟨c, rfl⟩ := h
@@ -233,65 +237,80 @@ theorem io_sim {k0 : Nat} (env : Env) (fin : Option Outcome) (bs : List (List St
   rw [hi.2]
   exact (List.prefix_append_right_inj _).2 (recsBytes_prefix hpre)
 
-theorem execFrom_sim {k0 : Nat} (env : Env) (fin : Option Outcome) (hfin : fin ≠ some .success)
-    (bs : List (List Stmt)) : ∀ {su : PState} {w : BufW}, BufW.Shadow k0 w su.wr → OutInv su →
-      SimRun k0 (execFrom env fin (withWr su w) bs) (execFrom env fin su bs) := by
-  induction bs with
+theorem execFrom_nil_sim {k0 : Nat} (env : Env) (fin : Option Outcome) (hfin : fin ≠ some .success)
+    {su : PState} {w : BufW} (h : BufW.Shadow k0 w su.wr) :
+    SimRun k0 (execFrom env fin (withWr su w) []) (execFrom env fin su []) := by
+  simp only [execFrom, runBatches]
+  cases fin with
+  | some o => exact stop_sim h o (fun ho => hfin (by rw [ho]))
+  | none =>
+    show SimRun k0
+      (if w.flushBuf.2 = true then finish (withWr su w.flushBuf.1) .success
+       else finish (withWr su w.flushBuf.1) (.failure "Io" "" Loc.nil))
+      (if su.wr.flushBuf.2 = true then finish { su with wr := su.wr.flushBuf.1 } .success
+       else finish { su with wr := su.wr.flushBuf.1 } (.failure "Io" "" Loc.nil))
+    have hu : su.wr.flushBuf.2 = true := by rw [BufW.flushBuf_none _ h.1]
+    rw [if_pos hu]
+    by_cases hk : w.flushBuf.2 = true
+    · rw [if_pos hk]
+      obtain ⟨e1, e2⟩ := h.flush_ok_dropped hk
+      exact ⟨by simp only [finish, withWr_wr]; rw [e1]; exact List.prefix_refl _,
+        by simpa only [finish, withWr_wr] using e2,
+        fun _ => ⟨by simpa only [finish, withWr_wr] using e1, rfl, rfl⟩, Or.inl rfl⟩
+    · rw [if_neg hk]
+      have hp := h.dropped_prefix
+      refine ⟨?_, ?_, fun hs => by simp [finish] at hs, Or.inr ⟨_, rfl⟩⟩
+      · simp only [finish, withWr_wr, BufW.dropped_flushBuf, BufW.dropped_none _ h.1]; exact hp.1
+      · simp only [finish, withWr_wr, BufW.dropped_flushBuf]; exact hp.2
+
+/-- statement by statement: both runs are in lock step until one statement fails in both (then both
+stop, in lock-step states) or the budgeted run hits a failing write (then it stops with `Io`, with a
+prefix of whatever the unlimited run goes on to write) -/
+theorem execFrom_stmts_sim {k0 : Nat} (env : Env) (fin : Option Outcome) (hfin : fin ≠ some .success)
+    (ss : List Stmt) : ∀ {su : PState} {w : BufW}, BufW.Shadow k0 w su.wr → OutInv su →
+      SimRun k0 (execFrom env fin (withWr su w) [ss]) (execFrom env fin su [ss]) := by
+  induction ss with
   | nil =>
     intro su w h hi
-    simp only [execFrom, runBatches]
-    cases fin with
-    | some o => exact stop_sim h o (fun ho => hfin (by rw [ho]))
-    | none =>
-      show SimRun k0
-        (if w.flushBuf.2 = true then finish (withWr su w.flushBuf.1) .success
-         else finish (withWr su w.flushBuf.1) (.failure "Io" "" Loc.nil))
-        (if su.wr.flushBuf.2 = true then finish { su with wr := su.wr.flushBuf.1 } .success
-         else finish { su with wr := su.wr.flushBuf.1 } (.failure "Io" "" Loc.nil))
-      have hu : su.wr.flushBuf.2 = true := by rw [BufW.flushBuf_none _ h.1]
-      rw [if_pos hu]
-      by_cases hk : w.flushBuf.2 = true
-      · rw [if_pos hk]
-        obtain ⟨e1, e2⟩ := h.flush_ok_dropped hk
-        exact ⟨by simp only [finish, withWr_wr]; rw [e1]; exact List.prefix_refl _,
-          by simpa only [finish, withWr_wr] using e2,
-          fun _ => ⟨by simpa only [finish, withWr_wr] using e1, rfl, rfl⟩, Or.inl rfl⟩
-      · rw [if_neg hk]
-        have hp := h.dropped_prefix
-        refine ⟨?_, ?_, fun hs => by simp [finish] at hs, Or.inr ⟨_, rfl⟩⟩
-        · simp only [finish, withWr_wr, BufW.dropped_flushBuf, BufW.dropped_none _ h.1]; exact hp.1
-        · simp only [finish, withWr_wr, BufW.dropped_flushBuf]; exact hp.2
-  | cons b bs ih =>
+    rw [execFrom_stmt_nil, execFrom_stmt_nil]
+    exact execFrom_nil_sim env fin hfin h
+  | cons s ss ih =>
     intro su w h hi
-    rw [execFrom_cons, execFrom_cons]
-    have hs := addStmts_sim env b h
+    rw [execFrom_stmt_cons, execFrom_stmt_cons]
+    have hs := addStmt_sim env s h
     revert hs
-    generalize hrk : addStmts env (withWr su w) b = rk
-    cases hru : addStmts env su b with
+    generalize hrk : addStmt env (withWr su w) s = rk
+    cases hru : addStmt env su s with
     | ok su' =>
       intro hs
       cases hs with
-      | ok h' => exact ih h' (hi.addStmts hru)
+      | ok h' => exact ih h' (hi.addStmt hru)
       | io l _ =>
-        have := io_sim env fin (b :: bs) h hi l
-        rw [execFrom_cons, hru] at this
+        have := io_sim env fin [s :: ss] h hi l
+        rw [execFrom_stmt_cons, hru] at this
         exact this
     | err e l =>
       intro hs
       cases hs with
       | err _ _ => exact stop_sim h _ (by simp)
       | io l _ =>
-        have := io_sim env fin (b :: bs) h hi l
-        rw [execFrom_cons, hru] at this
+        have := io_sim env fin [s :: ss] h hi l
+        rw [execFrom_stmt_cons, hru] at this
         exact this
     | panic x =>
       intro hs
       cases hs with
       | panic _ => exact stop_sim h _ (by simp)
       | io l _ =>
-        have := io_sim env fin (b :: bs) h hi l
-        rw [execFrom_cons, hru] at this
+        have := io_sim env fin [s :: ss] h hi l
+        rw [execFrom_stmt_cons, hru] at this
         exact this
+
+theorem execFrom_sim {k0 : Nat} (env : Env) (fin : Option Outcome) (hfin : fin ≠ some .success)
+    (bs : List (List Stmt)) {su : PState} {w : BufW} (h : BufW.Shadow k0 w su.wr) (hi : OutInv su) :
+    SimRun k0 (execFrom env fin (withWr su w) bs) (execFrom env fin su bs) := by
+  rw [execFrom_flatten env fin _ bs, execFrom_flatten env fin su bs]
+  exact execFrom_stmts_sim env fin hfin bs.flatten h hi
 
 theorem st0_shadow (k : Nat) : BufW.Shadow k (wr0 (some k)) (st0 none).wr := by
   simp [BufW.Shadow, st0, wr0_eq]
